@@ -17,11 +17,52 @@ func (e *Exec) strArg(v Value) string {
 	return s
 }
 
+// pin (trace mode) constrains the input just logged to the value recorded in the witness.
+func (e *Exec) pin() {
+	if e.cfg.Fixed == nil {
+		return
+	}
+	k := len(e.inputLog) - 1
+	rec := e.inputLog[k]
+	if k >= len(e.cfg.Fixed) || e.cfg.Fixed[k].Label != rec.Label || e.cfg.Fixed[k].Kind != rec.Kind {
+		e.notes = append(e.notes, "TRACE: input "+rec.Label+"/"+rec.Kind+" is not the one recorded at this position (path diverges from the witness)")
+		e.assume(e.tf.ff)
+		return
+	}
+	fv := e.cfg.Fixed[k]
+	for i, t := range rec.Terms {
+		if t.IsConst() {
+			continue
+		}
+		var v uint64
+		if rec.Kind == "bytes" || rec.Kind == "byte" {
+			if i >= len(fv.Bytes) {
+				e.assume(e.tf.ff)
+				return
+			}
+			v = uint64(fv.Bytes[i])
+		} else {
+			v = uint64(fv.Ints[i])
+		}
+		w := int(t.W)
+		if w == 0 {
+			if v != 0 {
+				e.assume(t)
+			} else {
+				e.assume(e.tf.Not(t))
+			}
+			continue
+		}
+		e.assume(e.tf.Cmp(OEq, t, e.tf.Const(w, v&mask(w))))
+	}
+}
+
 func registerVerifrt(reg func(f intrinsicFn, names ...string)) {
 	const P = "rcproxy/verifrt."
 	reg(func(e *Exec, fn *ssa.Function, args []Value) Value {
 		t := e.fresh(e.strArg(args[0]), 8)
 		e.inputLog = append(e.inputLog, InputRec{Label: e.strArg(args[0]), Kind: "byte", Terms: []*Term{t}, W: 8})
+		e.pin()
 		return t
 	}, P+"Byte")
 	reg(func(e *Exec, fn *ssa.Function, args []Value) Value {
@@ -31,6 +72,7 @@ func registerVerifrt(reg func(f intrinsicFn, names ...string)) {
 			bs[i] = e.fresh(e.strArg(args[0]), 8)
 		}
 		e.inputLog = append(e.inputLog, InputRec{Label: e.strArg(args[0]), Kind: "bytes", Terms: bs, W: 8})
+		e.pin()
 		if n == 0 {
 			return e.newByteSlice(nil, 0)
 		}
@@ -44,18 +86,21 @@ func registerVerifrt(reg func(f intrinsicFn, names ...string)) {
 		}
 		t := e.fresh(e.strArg(args[0]), 64)
 		e.inputLog = append(e.inputLog, InputRec{Label: e.strArg(args[0]), Kind: "int", Terms: []*Term{t}, W: 64})
+		e.pin()
 		e.assume(e.tf.And(e.tf.Cmp(OSle, lo, t), e.tf.Cmp(OSle, t, hi)))
 		return t
 	}, P+"Int")
 	reg(func(e *Exec, fn *ssa.Function, args []Value) Value {
 		t := e.fresh(e.strArg(args[0]), 0)
 		e.inputLog = append(e.inputLog, InputRec{Label: e.strArg(args[0]), Kind: "bool", Terms: []*Term{t}, W: 0})
+		e.pin()
 		return t
 	}, P+"Bool")
 	reg(func(e *Exec, fn *ssa.Function, args []Value) Value {
 		n := args[1].(*Term)
 		t := e.fresh(e.strArg(args[0]), 64)
 		e.inputLog = append(e.inputLog, InputRec{Label: e.strArg(args[0]), Kind: "choice", Terms: []*Term{t}, W: 64})
+		e.pin()
 		e.assume(e.tf.And(e.tf.Cmp(OSle, e.tf.Const(64, 0), t), e.tf.Cmp(OSlt, t, n)))
 		return e.tf.Const(64, uint64(e.concretiseN(t, int(e.concretise(n))+1)))
 	}, P+"Choice")
